@@ -22,7 +22,8 @@ ABSENT = -999.25
 UPI = 96.0           # PlotConstants.VIEW_BOX_UNITS_PER_PLOT_UNITS
 TOL = 0.07           # one printed decimal
 TOLY = 0.12          # depth axis: plus the three-decimal inch rounding of the track lines the pane is read from
-IN_PER = {b'.1IN': 0.1, b'FEET': 12.0, b'FT  ': 12.0, b'M   ': 1 / 0.0254, b'IN  ': 1.0}
+IN_PER = {b'.1IN': 0.1, b'FEET': 12.0, b'FT  ': 12.0, b'M   ': 1 / 0.0254, b'IN  ': 1.0, b'DM  ': 0.1 / 0.0254, b'CM  ': 0.01 / 0.0254}
+LAS_UNIT = {'FEET': 'F', 'FT  ': 'FT', 'M   ': 'M', 'DM  ': 'DM'}       # LIS-style X units -> LAS unit string
 CLASSES = ['constant', 'smooth', 'spiky', 'huge', 'tiny', 'neglog', 'absent', 'mixed']
 
 
@@ -177,6 +178,25 @@ def _curves_of(p, film_id):
     return out
 
 
+def curve_points(path):
+    """all curve polyline points of an SVG in document order (the 'Plot Curves' section)"""
+    from lxml import etree
+    out, section = [], None
+    for node in etree.parse(path).getroot().iter():
+        if node.tag is etree.Comment:
+            m = re.search(r'=+ (.+?) (START|END) =+', node.text or '')
+            if m:
+                section = m.group(1) if m.group(2) == 'START' else None
+            continue
+        if section == 'Plot Curves' and node.tag == SVG + 'polyline':
+            for tok in (node.get('points') or '').split():
+                try:
+                    a, b = tok.split(','); out.append((float(a), float(b)))
+                except ValueError:
+                    out.append((math.nan, math.nan))
+    return out
+
+
 def run_case(spec, scratch):
     """returns {'fails': [(detail, finding)], 'stats': {...}, 'nontriv': key or None}"""
     logging.disable(logging.CRITICAL)
@@ -245,43 +265,79 @@ def _run_case(spec, scratch, fails, stats, bump):
     step_in = max(6.0, math.ceil(3.0 * scale / UPI))
     out_path = os.path.join(scratch, 'c19_%d.svg' % spec['seed'])
     up = spec['up']
+    xunits = spec['xunits'].encode('ascii')
+    per = IN_PER[xunits]
+    argu = (spec.get('arg_units') or spec['xunits']).encode('ascii')
+    per_a = IN_PER[argu]
+    foreign = argu != xunits
+    x0 = spec['x0']
+    title = 'C19 <generated> & "quoted"'
     if not is_las:
-        xunits = spec['xunits'].encode('ascii')
-        per = IN_PER[xunits]
         spacing = step_in / per
         spacing = float(60 * math.ceil(spacing / 60)) if per < 1 else float(max(0.5, round(spacing * 2) / 2))
-        step_in = spacing * per
-        x0 = spec['x0']
         fobj, idx = make_lis(chans, n, x0, spacing, xunits, up)
-        lps = list(idx.genLogPasses())
-        lp = lps[0].logPass
-        xa = x0
-        xb = x0 + (-spacing if up else spacing) * (n - 1)
-        if spec.get('feet_args') and xunits == b'.1IN':
-            ev0, ev1 = EngVal.EngVal(xa * per / 12.0, b'FEET'), EngVal.EngVal(xb * per / 12.0, b'FEET')
-        else:
-            ev0, ev1 = EngVal.EngVal(xa, xunits), EngVal.EngVal(xb, xunits)
-        ret = p.plotLogPassLIS(fobj, lp, ev0, ev1, film_id, out_path, title='C19 <generated> & "quoted"')
+        lp = list(idx.genLogPasses())[0].logPass
         holder = lp
-        x_in = lambda x: x * per
+        def do_plot(e0, e1, path):
+            return p.plotLogPassLIS(fobj, lp, e0, e1, film_id, path, title=title)
     else:
-        step = (step_in / 12.0) * (-1 if up else 1)
-        step = math.copysign(max(0.5, round(abs(step) * 2) / 2), step)
-        step_in = abs(step) * 12.0
+        spacing = float(max(0.5, round(step_in / per * 2) / 2))
         from TotalDepth.LAS.core import LASRead
-        las = LASRead.LASRead(io.StringIO(make_las(chans, n, spec['x0'], step)))
+        las = LASRead.LASRead(io.StringIO(make_las(chans, n, x0, -spacing if up else spacing, LAS_UNIT[spec['xunits']])))
         holder = las
-        # the REAL path: Plot.plotLogPassLAS on the LASRead object; LAS input must produce a plot
-        try:
-            ret = p.plotLogPassLAS(las, las.x_axis_start, las.x_axis_stop, film_id, out_path, title='C19 <generated> & "quoted"')
-        except AttributeError as e:
-            fails.append((f'LAS input produces no plot: plotLogPassLAS raises AttributeError: {e}', None))
-            return {'fails': fails, 'stats': stats, 'nontriv': None}
-        if ret == (None, None):
-            fails.append(('LAS input produces no plot: plotLogPassLAS returned (None, None) for a LAS file holding curves of this format', None))
-            return {'fails': fails, 'stats': stats, 'nontriv': None}
-        xa, xb = las.x_axis_start.value, las.x_axis_stop.value
-        x_in = lambda x: x * 12.0
+        def do_plot(e0, e1, path):
+            return p.plotLogPassLAS(las, e0, e1, film_id, path, title=title)
+    step_in = spacing * per
+    d = -spacing if up else spacing
+    xs = [x0 + d * k for k in range(n)]
+    sub = spec.get('sub')
+    if sub or (foreign and not is_las):
+        # a sub-range of the log whose ends lie a quarter frame past frames k0 and k1: which frames are loaded does not
+        # depend on the rounding of the unit conversion (LogPass.frameFromX floors: frame k0, a quarter frame before the
+        # start, is the first one plotted; the stop is exclusive)
+        sub = sub or (0.0, 0.0)
+        k0 = 1 + int(sub[0] * (n // 3)); k1 = n - 2 - int(sub[1] * (n // 3))
+        xa, xb = xs[k0] + 0.25 * d, xs[k1] + 0.25 * d
+        partial = True
+    else:
+        xa, xb = xs[0], xs[-1]
+        partial = False
+    def ev(x, u, pu):
+        return EngVal.EngVal(x * per / pu, u) if u != xunits else EngVal.EngVal(x, xunits)
+    ref_path = out_path + '.ref.svg'
+    ref_points = None
+    try:
+        if foreign:
+            # the same interval in the file's own X units: the plot must have the same curve points
+            r0 = do_plot(EngVal.EngVal(xa, xunits), EngVal.EngVal(xb, xunits), ref_path)
+            if r0 and r0 != (None, None) and os.path.exists(ref_path):
+                ref_points = curve_points(ref_path)
+            bump('foreign_unit_plots')
+        if partial:
+            bump('partial_interval_plots')
+        ret = do_plot(ev(xa, argu, per_a), ev(xb, argu, per_a), out_path)
+    except AttributeError as e:
+        if not is_las:
+            raise
+        fails.append((f'LAS input produces no plot: plotLogPassLAS raises AttributeError: {e}', None))
+        return {'fails': fails, 'stats': stats, 'nontriv': None}
+    finally:
+        if os.path.exists(ref_path):
+            os.remove(ref_path)
+    if is_las and ret == (None, None):
+        fails.append(('LAS input produces no plot: plotLogPassLAS returned (None, None) for a LAS file holding curves of this format', None))
+        return {'fails': fails, 'stats': stats, 'nontriv': None}
+    x_in = lambda x: x * per
+    if ref_points is not None and os.path.exists(out_path):
+        pts = curve_points(out_path)
+        if len(pts) != len(ref_points):
+            fails.append((f'interval given in {argu!r} for a file indexed in {xunits!r}: {len(pts)} curve points but {len(ref_points)} '
+                          f'when the same interval is given in the file units', None))
+        else:
+            dev = max([max(abs(a[0] - b[0]), abs(a[1] - b[1])) for a, b in zip(pts, ref_points)] or [0.0])
+            if dev > 0.25:
+                fails.append((f'interval given in {argu!r} for a file indexed in {xunits!r}: curve points differ by up to {dev:.1f} '
+                              f'view-box units from the plot with the interval in the file units', None))
     if ret == (None, None) or ret is None:
         fails.append(('no plot produced although the log pass has outputs of this format (returned (None, None))', None))
         return {'fails': fails, 'stats': stats, 'nontriv': None}
@@ -360,6 +416,8 @@ def _run_case(spec, scratch, fails, stats, bump):
     x_top, x_botm = (x_in(xb), x_in(xa)) if up else (x_in(xa), x_in(xb))
     def y_of(x):
         return pane_top + (pane_bot - pane_top) * (x_in(x) - x_top) / (x_botm - x_top)
+    # a partial interval starts between two frames: the frame just before the start is plotted (less than one frame outside the pane)
+    pane_slack = (step_in / scale * UPI) if partial else 0.0
     npts = 0
     for oname, plist in polys.items():
         o = byname.get(oname)
@@ -382,13 +440,18 @@ def _run_case(spec, scratch, fails, stats, bump):
             for (x, y) in pts:
                 npts += 1
                 allpts.setdefault(int(round(y * 10)), []).append(x)
+                if is_las and partial and not (pane_top - TOLY - pane_slack <= y <= pane_bot + TOLY + pane_slack) \
+                        and min(fy) - TOLY <= y <= max(fy) + TOLY and 0.25 * UPI - TOL <= x <= VW - 0.25 * UPI + TOL:
+                    # plotLogPassLAS plots every frame of the file, also those outside the requested interval
+                    fails.append((f'point ({x},{y}) of output {oname}: a frame of the LAS file outside the requested interval is plotted '
+                                  f'outside the main pane [{pane_top:.1f},{pane_bot:.1f}]', 'C19-las-interval-ignored')); continue
                 if not (0 <= x <= VW and 0 <= y <= VH):
                     fails.append((f'point ({x},{y}) of output {oname} outside the view box {VW}x{VH}', None)); continue
                 if not (0.25 * UPI - TOL <= x <= VW - 0.25 * UPI + TOL):
                     fails.append((f'point ({x},{y}) of output {oname} outside the left/right plot margins', None)); continue
                 if not (tlo - TOL <= x <= thi + TOL):
                     fails.append((f'point ({x},{y}) of output {oname} outside its track(s) [{tlo:.1f},{thi:.1f}]', None)); continue
-                if not (pane_top - TOLY <= y <= pane_bot + TOLY):
+                if not (pane_top - TOLY - pane_slack <= y <= pane_bot + TOLY + pane_slack):
                     fails.append((f'point ({x},{y}) of output {oname} outside the main pane [{pane_top:.1f},{pane_bot:.1f}]', None)); continue
                 on_edge = any(abs(x - e) <= TOL for e in edges)
                 # locate in depth
@@ -481,12 +544,20 @@ def build_specs(ctx):
     specs = []
     def add(inp, fmt, data, **kw):
         s = {'op': 'svg', 'input': inp, 'fmt': fmt, 'data': data, 'up': rng.random() < 0.5, 'seed': rng.randrange(1 << 30),
-             'frames': rng.choice([12, 25, 40]), 'x0': float(rng.choice([5000, 1000, 12345, 250])) , 'xunits': rng.choice(['.1IN', 'FEET', 'M   ']),
+             'frames': rng.choice([12, 25, 40]), 'x0': float(rng.choice([5000, 1000, 12345, 250])),
+             'xunits': rng.choice(['.1IN', 'FEET', 'M   ', 'FT  ', 'DM  '] if inp == 'LIS' else ['FEET', 'M   ', 'FT  ', 'DM  ']),
              'feet_args': rng.random() < 0.5}
         if s['xunits'] == '.1IN':
             s['x0'] *= 120.0
-        if inp == 'LAS':
-            s['xunits'] = 'FEET'
+        elif s['xunits'] == 'DM  ':
+            s['x0'] *= 3.0
+        c = rng.random()
+        if c < 0.5:
+            # interval in units that differ from the file's X units (convertible, both directions)
+            s['arg_units'] = rng.choice([u for u in ('FEET', 'FT  ', 'M   ', '.1IN', 'IN  ', 'DM  ', 'CM  ') if u != s['xunits']])
+            s['sub'] = [rng.random(), rng.random()] if rng.random() < 0.5 else None
+        elif c < 0.7:
+            s['sub'] = [rng.random(), rng.random()]
         s.update(kw)
         specs.append(s)
     reps = ctx.n(1, 6)
